@@ -46,6 +46,8 @@ type JobSpec struct {
 	Preempt     map[string]int            `json:"preempt"` // tier -> preemption bound (0 = unbounded)
 	TestTimeout int                       `json:"test_timeout_s"`
 	BudgetS     map[string]int            `json:"budget_s"` // tier -> wall-clock budget; exceeding it is inconclusive
+	OnlyLabels  []string                  `json:"only_labels"` // assert labels (prefixes) that belong to this property; others are another check's
+	Kinds       []string                  `json:"kinds"`       // violation kinds that belong to this property (default: all)
 }
 
 type Violation struct {
@@ -379,6 +381,9 @@ func runJob(spec *JobSpec, tier string, extraOverlay map[string][]byte, concrete
 					res.RedirUsed[k] += v
 				}
 				for _, v := range m.viol {
+					if !spec.owns(&v) {
+						continue
+					}
 					sig := v.Signature(spec.Name)
 					if !sigSeen[sig] {
 						sigSeen[sig] = true
@@ -534,4 +539,29 @@ func posStr(fset *token.FileSet, p token.Pos) string {
 	}
 	ps := fset.Position(p)
 	return fmt.Sprintf("%s:%d", strings.TrimPrefix(ps.Filename, repoDir+"/"), ps.Line)
+}
+
+// owns: several properties can share one exploration (C02/C04); each check reports only the
+// violations that belong to its property.
+func (s *JobSpec) owns(v *Violation) bool {
+	if len(s.Kinds) > 0 {
+		ok := false
+		for _, k := range s.Kinds {
+			if k == v.Kind {
+				ok = true
+			}
+		}
+		if !ok {
+			return false
+		}
+	}
+	if v.Kind == "assert" && len(s.OnlyLabels) > 0 {
+		for _, p := range s.OnlyLabels {
+			if strings.HasPrefix(v.Msg, p) {
+				return true
+			}
+		}
+		return false
+	}
+	return true
 }
